@@ -109,12 +109,23 @@ impl ProcessState {
             dbfile
         };
         let must_create = !dbfile.exists();
+        // A transaction that is going to write must take the write lock up
+        // front: upgrading a read transaction fails with SQLITE_BUSY_SNAPSHOT
+        // (which the busy timeout does not retry) if anyone else committed
+        // in between.
+        let tx_behavior = if must_create || e.runid.is_none() {
+            TransactionBehavior::Immediate
+        } else {
+            TransactionBehavior::Deferred
+        };
         let mut db: Connection;
         {
             let tx = if !must_create {
                 db = connect(&e, &dbfile)
                     .map_err(|e| RedoError::new(format!("could not connect: {}", e)))?;
-                let tx = db.transaction().map_err(RedoError::opaque_error)?;
+                let tx = db
+                    .transaction_with_behavior(tx_behavior)
+                    .map_err(RedoError::opaque_error)?;
                 let ver: Option<i32> = tx
                     .query_row("select version from Schema", [], |row| row.get(0))
                     .optional()
@@ -132,7 +143,9 @@ impl ProcessState {
                 helpers::unlink(&dbfile).map_err(RedoError::opaque_error)?;
                 db = connect(&e, &dbfile)
                     .map_err(|e| RedoError::new(format!("could not connect: {}", e)))?;
-                let tx = db.transaction().map_err(RedoError::opaque_error)?;
+                let tx = db
+                    .transaction_with_behavior(tx_behavior)
+                    .map_err(RedoError::opaque_error)?;
                 tx.execute(
                     "create table Schema \
                         (version int)",
